@@ -5,7 +5,7 @@ import os, re
 import vlib
 
 
-def prove(ctx, units, modules, required, tie_module, tie_ns, extra_allow=None, dependents=()):
+def prove(ctx, units, modules, required, tie_module, tie_ns, extra_allow=None, dependents=(), sig_only=None):
     """dependents: [(module, namespace)] — theorem files built on the tie (e.g. the property restated about the generated code);
     every theorem in them is required and inherits the tie's bv_decide certificates, nothing else"""
     import regen
@@ -23,7 +23,7 @@ def prove(ctx, units, modules, required, tie_module, tie_ns, extra_allow=None, d
     # the build on them - the tie is broken and the search for a failing input starts at once
     changed = []
     for u in units:
-        changed += [f'{u}: {c}' for c in regen.signature_changes(u)]
+        changed += [f'{u}: {c}' for c in regen.signature_changes(u, only=(sig_only or {}).get(u))]
     if changed:
         ctx.broken.append('tie T: the interface of the regenerated definitions differs from the one the tie theorems of ' + tie_module
                           + ' are stated against (' + '; '.join(changed)[:900] + ')')
